@@ -39,8 +39,13 @@ func (f filebufferWithSize) Sync() error {
 // Write overwrites in place and zero-fills gaps like a file does; `filebuffer.Buffer.Write` drops everything behind
 // the cursor when it is not at the end of the buffer
 func (f filebufferWithSize) Write(p []byte) (n int, err error) {
+	if len(p) == 0 {
+		// Writing nothing changes nothing
+		return 0, nil
+	}
+
 	idx, size := int(f.Index), f.Buff.Len()
-	if idx < 0 || idx == size || len(p) == 0 { // Writing nothing never extends the buffer
+	if idx < 0 || idx == size {
 		return f.Buffer.Write(p)
 	}
 
